@@ -198,6 +198,48 @@ def _d4(chk, fb):
         chk.refuted("D4", f.key, "last-entry", f.loc(), "the last probability of the global-ratio coding is no longer assigned the remaining mass")
 
 
+def _d5(chk, fb):
+    """a countdown loop 'for (i = N; i > 0; --i)' visits N .. 1.  When its body stores into a member vector at [i - 1] every
+    element 0 .. N-1 is written; when it stores at [i] element 0 is never written unless another statement of the function does"""
+    import re
+    n = 0
+    for f in fb.concrete_fns():
+        if f.body is None or not f.relfile.endswith("Bpp/Numeric/Prob/Simplex.cpp"):
+            continue
+        for lp in [x for x in f.all_nodes() if x["k"] == "ForStmt" and x.get("cond") is not None and x.get("body") is not None]:
+            cond = strip(f.nodes[lp["cond"]])
+            if not (cond["k"] == "BinaryOperator" and cond["op"] in (">", "!=") and strip(kids(cond)[0])["k"] == "DeclRefExpr" and strip(kids(cond)[1])["k"] == "IntegerLiteral" and strip(kids(cond)[1])["val"] == 0):
+                continue
+            iv = strip(kids(cond)[0])["decl"]["name"]
+            inc = f.nodes.get(lp.get("inc")) if lp.get("inc") is not None else None
+            if inc is None or "--" not in render(inc):
+                continue
+            body = f.nodes[lp["body"]]
+            for w in walk(body):
+                if w["k"] in ("BinaryOperator", "CompoundAssignOperator") and w.get("op", "").endswith("=") and w["op"] not in ("==", "!=", "<=", ">="):
+                    l_ = strip(kids(w)[0])
+                    if is_call(l_) and l_.get("op") == "[]" and "obj" in l_:
+                        vec = strip(f.obj(l_))
+                        if vec["k"] != "MemberExpr" or not vec["member"].get("this"):
+                            continue
+                        idx = render(f.args(l_)[0])
+                        n += 1
+                        con = "countdown:%s[%s]" % (vec["member"]["name"], idx)
+                        if idx == "(%s - 1)" % iv:
+                            chk.proved("D5", f.key, con, f.loc(w), "the loop runs %s = N..1 and stores at [%s - 1]: elements N-1..0" % (iv, iv))
+                        elif idx == iv:
+                            zero = [x for x in f.all_nodes() if x["k"] in ("BinaryOperator", "CompoundAssignOperator") and x.get("op", "").endswith("=") and render(kids(x)[0]) in ("%s[0]" % vec["member"]["name"],) and not f.contains(lp, x)]
+                            if zero:
+                                chk.proved("D5", f.key, con, f.loc(w), "element 0 is written outside the loop (%s)" % f.loc(zero[0]))
+                            else:
+                                chk.refuted("D5", f.key, con, f.loc(w),
+                                            "the loop stops at %s > 0 and stores at [%s]: element 0 of %s is never recomputed here and keeps its previous value" % (iv, iv, vec["member"]["name"]),
+                                            witness={"history": "a parameter update after construction: the first stored value is stale"})
+                        else:
+                            chk.unknown("D5", f.key, con, f.loc(w), "index form '%s' not related to the counter" % idx)
+    chk.floor("D5", "countdown loops storing into member vectors", n, 1)
+
+
 def run(chk, fb, tier):
     chk.rule("D1", "per coding method, constructor(probas) and setFrequencies(probas) compute the same parameter formulas (clone agreement under renaming)")
     chk.rule("D2", "setFrequencies indexes its argument with dim_-derived bounds only under a dominating test probas.size() == dim_")
@@ -207,4 +249,10 @@ def run(chk, fb, tier):
     _d2(chk, fb)
     _d3(chk, fb)
     _d4(chk, fb)
+    chk.rule("D5", "a countdown loop 'i = N; i > 0; --i' that stores into a member vector stores at [i - 1] (or element 0 is written elsewhere)")
+    _d5(chk, fb)
+    from . import argswap as _argswap
+    chk.rule("DA", "argument/parameter name agreement at forwarding calls in the anchored units (same-typed parameters must not be swapped)")
+    _af = ('src/Bpp/Numeric/Prob/Simplex.h', 'src/Bpp/Numeric/Prob/Simplex.cpp', 'src/Bpp/Numeric/Hmm/FullHmmTransitionMatrix.cpp', 'src/Bpp/Numeric/Prob/MixtureOfDiscreteDistributions.cpp')
+    _argswap.check(chk, fb, "DA", [f_ for f_ in fb.concrete_fns() if f_.body is not None and any(f_.relfile.endswith(x_) for x_ in _af)], 1)
     chk.assume("class invariant size(vProb_) == dim_ (established by both constructors)")
